@@ -56,7 +56,7 @@ func runC09(c *an.Ctx) {
 			}
 		})
 	}
-	c.Floor("Q1", "unquote call sites in the grammar actions", nUnq, 8)
+	c.Floor("Q1", "unquote call sites in the grammar actions", nUnq, 4)
 	t.Run()
 	U := map[*types.Var]bool{}
 	var uNames []string
@@ -182,7 +182,7 @@ func runC09(c *an.Ctx) {
 			}
 		})
 	}
-	c.Floor("Q1", "loads of unquoted fields in the formatter", nLoads, 6)
+	c.Floor("Q1", "loads of unquoted fields in the formatter", nLoads, 1)
 	c.Check("Q1", "unquoted-fields-emitted-through-quoteString", astFormat.Pos(), nQuoted >= 6,
 		fmt.Sprintf("values of unquoted fields passed to quoteString at %d site(s)", nQuoted))
 
@@ -343,6 +343,39 @@ func ruleQ2(c *an.Ctx, quote *ssa.Function) {
 				v, _ := constant.Int64Val(cv)
 				if v != '"' && v != '\\' {
 					letters[byte(v)] = true
+				}
+			} else {
+				// the letter may come out of a private lookup helper (byte -> escape letter): its
+				// constant results are the letters
+				sl := newSlice(quote)
+				sl.add(cl.Call.Args[1])
+				for v := range sl.seen {
+					hc, ok := v.(*ssa.Call)
+					if !ok {
+						continue
+					}
+					h := hc.Call.StaticCallee()
+					if h == nil || h.Blocks == nil || h.Pkg != quote.Pkg {
+						continue
+					}
+					an.Instrs(h, func(in2 ssa.Instruction) {
+						r, ok := in2.(*ssa.Return)
+						if !ok || len(r.Results) != 1 {
+							return
+						}
+						vals := []ssa.Value{an.RetVal(r, 0)}
+						if ph, ok := vals[0].(*ssa.Phi); ok {
+							vals = ph.Edges
+						}
+						for _, rv := range vals {
+							if cv, ok := an.ConstVal(rv); ok && cv.Kind() == constant.Int {
+								v, _ := constant.Int64Val(cv)
+								if v > 0 && v != '"' && v != '\\' {
+									letters[byte(v)] = true
+								}
+							}
+						}
+					})
 				}
 			}
 		case "mustWriteString":
